@@ -391,7 +391,7 @@ def _leaves(t, tests, out, limit):
                         continue
                     _leaves(v, tests + earlier + r + g, out, limit)
                     if r + g:
-                        earlier = earlier + [("not", tuple(r + g))]
+                        earlier = earlier + [negate(r + g)]
                     else:
                         return   # an irrefutable arm whose guard always holds: nothing below is reached
                     continue
